@@ -452,11 +452,17 @@ func c04Gen(g *Gen) {
 	// ---- kind 1: util.WriteFileAt alone, every fault x boundary sizes x what is there before ----
 	sizes := []int{1, 2, 9, 300}
 	if g.Thorough() {
-		sizes = append(sizes, 4096, 4097) // (the Coq-side line parser is quadratic in the field length: few of these)
+		sizes = append(sizes, 3, 4, 5, 15, 16, 17, 31, 32, 33, 255, 256, 257, 4096, 4097) // (the Coq-side line parser is quadratic in the field length: few big ones)
 	}
 	for _, n := range sizes {
 		data := r.Bytes(n, []byte("abcdefghijklmnopqrstuvwxyz"))
 		ks := []int64{1, int64(n / 2), int64(n - 1), int64(n), int64(n + 1)}
+		if g.Thorough() && n <= 33 {
+			ks = nil
+			for k := 1; k <= n+1; k++ {
+				ks = append(ks, int64(k)) // every offset
+			}
+		}
 		var scripts []int64
 		scripts = append(scripts, 0, 4, 5, 7, 8)
 		for _, k := range ks {
@@ -488,11 +494,19 @@ func c04Gen(g *Gen) {
 	lens := [][3]int{{10, 10, 10}, {1, 7, 13}, {16, 2, 5}}
 	if g.Thorough() {
 		lens = append(lens, [3]int{4096, 500, 3}, [3]int{1, 1, 1}, [3]int{300, 20, 257})
+		for j := 0; j < 12; j++ {
+			lens = append(lens, [3]int{r.Range(1, 40), r.Range(1, 40), r.Range(1, 40)})
+		}
 	}
 	for li, ln := range lens {
 		for pos := 0; pos < 3; pos++ {
 			n := ln[pos]
 			ks := map[int64]bool{1: true, int64(n / 2): true, int64(n - 1): true, int64(n): true}
+			if g.Thorough() && n <= 12 {
+				for k := 1; k <= n; k++ {
+					ks[int64(k)] = true // every offset
+				}
+			}
 			var scripts []int64
 			scripts = append(scripts, 4, 5, 7, 8, 1, 2)
 			for k := range ks {
@@ -557,7 +571,7 @@ func c04Gen(g *Gen) {
 		}
 	}
 	// ---- a damaged file among recovered ones: zero length, directory, leftover temporary file ----
-	for v := 0; v < g.Pick(12, 60); v++ {
+	for v := 0; v < g.Pick(12, 400); v++ {
 		var pool [][]byte
 		var ops []bufOp
 		nfiles := r.Range(3, 6)
